@@ -10,6 +10,7 @@ import (
 	"go/token"
 	"go/types"
 	"math"
+	"math/big"
 	"regexp"
 	"strings"
 	"testing"
@@ -352,8 +353,11 @@ func genFloat(t *rapid.T, d int) string {
 		op := rapid.SampledFrom([]string{"+", "-", "*", "/"}).Draw(t, "fop")
 		return "(" + genFloat(t, d-1) + " " + op + " " + genFloat(t, d-1) + ")"
 	case 3:
-		// untyped integer mixed into untyped float arithmetic (not division by a typed float)
-		op := rapid.SampledFrom([]string{"+", "-", "*"}).Draw(t, "fmop")
+		// untyped integer mixed into float arithmetic, on either side
+		op := rapid.SampledFrom([]string{"+", "-", "*", "/"}).Draw(t, "fmop")
+		if rapid.Bool().Draw(t, "fmside") {
+			return "(" + genFloat(t, d-1) + " " + op + " " + rapid.SampledFrom(intLits).Draw(t, "fmint") + ")"
+		}
 		return "(" + rapid.SampledFrom(intLits).Draw(t, "fmint") + " " + op + " " + genFloat(t, d-1) + ")"
 	case 4:
 		return rapid.SampledFrom([]string{"-", "+"}).Draw(t, "fuop") + "(" + genFloat(t, d-1) + ")"
@@ -416,7 +420,7 @@ func genKinded(t *rapid.T, d int) (string, []string) {
 	return genStrE(t, d), []string{"string"}
 }
 
-var kindFindings = []string{"C02-typed-float-constants-not-rounded", "C02-typed-int-const-keeps-float-kind", "C02-complex-constants", "C02-integer-op-on-float-constant", "C02-float-truncation-accepted", "C02-invalid-shift-count-accepted", "C02-int-const-divided-by-typed-float", "C02-tiny-float-constants"}
+var kindFindings = []string{"C02-typed-float-constants-not-rounded", "C02-typed-int-const-keeps-float-kind", "C02-complex-constants", "C02-integer-op-on-float-constant", "C02-float-truncation-accepted", "C02-invalid-shift-count-accepted", "C02-tiny-float-constants"}
 
 func strictMode() bool {
 	for _, id := range kindFindings {
@@ -504,6 +508,23 @@ func tinyValue(c Case) bool {
 	return f == 0
 }
 
+var reExactRat = regexp.MustCompile(`Go's exact value is -?[0-9]+/([0-9]+) \(type untyped float\)`)
+
+// nonDyadic reports whether the failure is about an untyped float constant whose exact value is
+// a rational that no binary floating point number holds (denominator not a power of two):
+// Scriggo computes untyped float constants with 512-bit floats and not exactly.
+func nonDyadic(msg string) bool {
+	m := reExactRat.FindStringSubmatch(msg)
+	if m == nil {
+		return false
+	}
+	d, ok := new(big.Int).SetString(m[1], 10)
+	if !ok || d.Sign() <= 0 {
+		return false
+	}
+	return new(big.Int).And(d, new(big.Int).Sub(d, big.NewInt(1))).Sign() != 0
+}
+
 // classify maps a failure to a recorded finding by the construct involved.
 func classify(c Case, msg string) string {
 	accepts := strings.HasPrefix(msg, "Scriggo accepts")
@@ -512,11 +533,13 @@ func classify(c Case, msg string) string {
 		return "C02-complex-constants"
 	case strings.Contains(msg, "observation program") && strings.Contains(msg, "operator % not defined on") && reFloatLit.MatchString(c.Expr):
 		return "C02-typed-int-const-keeps-float-kind"
-	case (strings.HasPrefix(c.Type, "float") || strings.Contains(c.Expr, "float32(") || strings.Contains(c.Expr, "float64(")) && strings.Contains(msg, "Go's exact value") && !strings.Contains(c.Expr, "/"):
+	case (strings.HasPrefix(c.Type, "float") || strings.Contains(c.Expr, "float32(") || strings.Contains(c.Expr, "float64(")) && strings.Contains(msg, "Go's exact value") && (!strings.Contains(c.Expr, "/") || c.Type == "float32" || strings.Contains(c.Expr, "float32(") || strings.Contains(msg, "exact value is 0 ")):
 		return "C02-typed-float-constants-not-rounded"
 	case strings.HasPrefix(msg, "Scriggo rejects") && strings.Contains(msg, "truncated to integer") && strings.Contains(c.Expr, "1e19"):
 		return "C02-float-to-unsigned-above-int64"
 	case strings.Contains(msg, "Go's exact value") && reHugeFloat.MatchString(c.Expr) && strings.ContainsAny(c.Expr, "+-"):
+		return "C02-untyped-float-precision"
+	case nonDyadic(msg):
 		return "C02-untyped-float-precision"
 	case reTiny.MatchString(c.Expr) || tinyValue(c):
 		return "C02-tiny-float-constants"
@@ -526,8 +549,6 @@ func classify(c Case, msg string) string {
 		return "C02-integer-op-on-float-constant"
 	case accepts && (strings.Contains(msg, "truncated") || strings.Contains(msg, "cannot convert")):
 		return "C02-float-truncation-accepted"
-	case strings.Contains(c.Expr, "/") && (strings.Contains(c.Expr, "float64(") || strings.Contains(c.Expr, "float32(") || c.Type == "float64" || c.Type == "float32") && strings.Contains(msg, "Go's exact value"):
-		return "C02-int-const-divided-by-typed-float"
 	}
 	return ""
 }
